@@ -14,6 +14,8 @@ import os
 from mon import core, lang
 from mon import refmodel as rm
 from mon.gen_transmodel import gen
+from mon.fnlib import basic as fl  # noqa: F811
+from mon.fnlib import trans as tr  # noqa: F811
 
 LEVEL = "exploration"
 RULE = (
@@ -113,10 +115,30 @@ def _run_case(case: dict) -> dict:
     states += [[rng.choice([0.5, 1.0, 1.5, 2.0]) * (sc if sc != 1.0 and rng.random() < 0.5 else 1.0) for _ in range(n)] for _ in range(2)]  # lattice states
     times = [0.0, round(rng.uniform(0.1, 3.0), 2), 1.0, 2.5]
     rs_jobs: list[tuple[str, list | None, str, list, list, list]] = []
+    # a table of the caller's own (empty) handed to every generation as `custom_fns`, after it was used for a variant of the
+    # model in which the same reaction names carry other rate laws: generated code follows the model it is generated from
+    custom: dict | None = None
+    if rng.random() < 0.5:
+        custom = {}
+        spec_v = copy.deepcopy(spec)
+        for c in spec_v["components"]:
+            if c["kind"] == "reaction":
+                cur = fl.resolve(c["fn"]) if isinstance(c["fn"], str) else None
+                alts = [f for f in tr.RATES.get(len(c["args"]), []) if f is not cur and f is not tr.t_eqgate]
+                if cur in tr.RATES.get(len(c["args"]), []) and alts:
+                    c["fn"] = fl.ref(rng.choice(alts))
+        try:
+            gens[rng.choice(LANGS)](rm.build(spec_v), custom_fns=custom)
+        except Exception:  # noqa: BLE001, S110
+            pass
+        counters["caller_owned_custom_fns_table_used_for_a_variant_first"] = 1
     for lg, fp in plan:
         tag = f"{lg}{'+free' if fp else ''}"
         try:
-            code = gens[lg](model, free_parameters=fp)
+            code = gens[lg](model, free_parameters=fp, **({"custom_fns": custom} if custom is not None else {}))
+            if custom:
+                viols.append(core.viol(f"generation wrote into the table handed over as custom_fns [{lg}]", None, language=tag, entries=sorted(custom)[:10], **ctx))
+                custom.clear()
         except Exception as e:  # noqa: BLE001
             viols.append(core.viol(f"generation raised for a translatable model [{lg}]", mech_gen(lg, e), language=tag, error=f"{type(e).__name__}: {e}"[:300], **ctx))
             continue
